@@ -226,9 +226,19 @@ pub fn check_case(case: &Case, ctx: &mut Ctx) {
             let got_d: BTreeSet<String> = derive_lists.into_iter().collect();
             let got_a: BTreeSet<String> = attrs.into_iter().collect();
             let mut want_d = global_d.clone();
+            // a prelude `Cow<T>` is transparent (DESIGN 4.1): the field is the borrowed type
+            let through_cow = |mut id: u32| loop {
+                match registry.resolve(id) {
+                    Some(t) if crate::shape::is_prelude_cow(t) => match t.type_params.first().and_then(|p| p.ty) {
+                        Some(inner) => id = inner.id,
+                        None => return id,
+                    },
+                    _ => return id,
+                }
+            };
             let single_uint = fields.len() == 1
                 && matches!(
-                    registry.resolve(fields[0].ty.id).map(|x| &x.type_def),
+                    registry.resolve(through_cow(fields[0].ty.id)).map(|x| &x.type_def),
                     Some(TypeDef::Primitive(
                         scale_info::TypeDefPrimitive::U8
                             | scale_info::TypeDefPrimitive::U16
